@@ -86,7 +86,7 @@ const wellFormed = "well-formed schemas (DESIGN 3.0.5): A1 built by the public c
 func init() {
 	register(&PropSpec{
 		ID: "C01",
-		Explanation: "Decided: R-FITS - the struct mapper converts a validated number into the field's type only behind a check that consults OverflowInt / OverflowUint / OverflowFloat (a float32 field still rounds: not decided). R-SUPPLIEDNONNIL - Unserialize of a list / map schema never hands out a nil container for a supplied value (nil means 'not supplied' in a struct field); R-CODEC also requires duplicate map keys to be refused by the transport. Decided R-CODEC - the transport's CBOR modes are as wide as the schemas; R-DISCPRESENT / R-STOREALL - the typed discriminator is stored on every accepting Unserialize path, every way round the struct mapper stores the supplied value. (structural parts of the round trip): R-DELEG - for every type with typed entry points each pair (XType, X) is a delegation on the same receiver, or both " +
+		Explanation: "Decided: R-FITS - the struct mapper converts a validated number into the field's type only behind a check that consults OverflowInt / OverflowUint / OverflowFloat and was given the type converted into (same Elem depth of the Type / Elem chain) (a float32 field still rounds: not decided). R-SUPPLIEDNONNIL - Unserialize of a list / map schema never hands out a nil container for a supplied value (nil means 'not supplied' in a struct field); R-CODEC also requires duplicate map keys to be refused by the transport. Decided R-CODEC - the transport's CBOR modes are as wide as the schemas; R-DISCPRESENT / R-STOREALL - the typed discriminator is stored on every accepting Unserialize path, every way round the struct mapper stores the supplied value. (structural parts of the round trip): R-DELEG - for every type with typed entry points each pair (XType, X) is a delegation on the same receiver, or both " +
 			"members consult every constraint field on all accepting paths; R-BOUNDFORM - the typed and untyped paths test the same quantity against the same bound in the " +
 			"same inclusive form; R-DYNTYPE - the non-error result of every Serialize / SerializeType is, by interprocedural dynamic-type provenance, a wire type " +
 			"(int64, float64, string, bool, []any, map[any]any, map[string]any; results produced by reflection are listed, not decided); R-ASSERT - the unchecked " +
